@@ -20,7 +20,7 @@ from ..worlds import refdb as R
 
 PROP = 'C08'
 LEVEL = 'exploration'
-RUNS = {'quick': 320, 'thorough': 4800}
+RUNS = {'quick': 256, 'thorough': 3840}
 
 RULE = ('runs generated from the seed: a reference database world (3-25 genomes, taxonomy forest, permuted/padded signature file) and a pool of 2-8 query genomes '
         '(plain + gzip files in different directories, pre-computed signature file); then 8-16 query commands with drawn batch (1-6 inputs, any order, repeats), '
@@ -179,9 +179,17 @@ def scenario(ctx):
 			inputs = [pool.sigfile]
 			args_in = ['-s', pool.sigfile]
 		else:
-			bsize = ch.int(1, 6, L + '.bsize')
-			batch = [ch.int(0, npool - 1, f'{L}.b{i}') for i in range(bsize)]
-			forms = [ch.pick(FORMS, f'{L}.f{i}') for i in range(bsize)]
+			if ch.flip(0.025, L + '.large_batch'):
+				# far beyond the usual batch size: thresholds like "above 500 files" / "200 files per worker" only engage here
+				bsize = ch.pick([520, 640], L + '.large_n')
+				brng = random.Random(ch.subseed(L + '.large_order'))
+				batch = [brng.randrange(npool) for _ in range(bsize)]
+				forms = [brng.choice(FORMS) for _ in range(bsize)]
+				ctx.probe('large_batch')
+			else:
+				bsize = ch.int(1, 6, L + '.bsize')
+				batch = [ch.int(0, npool - 1, f'{L}.b{i}') for i in range(bsize)]
+				forms = [ch.pick(FORMS, f'{L}.f{i}') for i in range(bsize)]
 			paths = [pool.genomes[g][f] or pool.genomes[g]['plain'] for g, f in zip(batch, forms)]
 			if channel == 'positional':
 				# absolute or relative to cwd? the harness never changes cwd: absolute paths
@@ -214,7 +222,7 @@ def scenario(ctx):
 		if no_ldir:
 			cwd = base
 		fault_paths = inputs if channel != 'sigfile' else None
-		desc = dict(channel=channel, fmt=fmt, strict=strict, cores=cores, progress=progress, route=route, batch=batch, decoy_cwd=bool(cwd), **knobs.describe())
+		desc = dict(channel=channel, fmt=fmt, strict=strict, cores=cores, progress=progress, route=route, batch=batch if len(batch) <= 12 else [len(batch), blob_hash(repr(batch))], decoy_cwd=bool(cwd), **knobs.describe())
 		if route == 'cli':
 			res, h = run_cli(ctx, args, knobs, short_paths=all_paths, short_seed=ch.subseed(L + '.short'), chunk=True, cwd=cwd, ch=ch, label=L, fault_paths=fault_paths)
 			status, exc, stderr = res.status, res.exc, res.stderr
@@ -235,7 +243,7 @@ def scenario(ctx):
 		if h.omp_stats and h.omp_stats['max_executing'] >= 2:
 			ctx.probe('ge2_threads_executed_iterations')
 		if len(batch) >= 2 or (cores or 1) >= 2:
-			ctx.key(tuple(batch), channel, fmt, strict, cores, 'small' if (knobs.chunksize or 10 ** 9) < n_ref else 'big', tuple(order), route)
+			ctx.key(tuple(batch) if len(batch) <= 12 else (len(batch), blob_hash(repr(batch))), channel, fmt, strict, cores, 'small' if (knobs.chunksize or 10 ** 9) < n_ref else 'big', tuple(order), route)
 		key_desc = f'{channel}/{fmt}{"/strict" if strict else ""} -c {cores} chunk {knobs.chunksize} via {route}'
 		if h.fault_fired and status != 0:
 			# an injected fault (worker death, read error) may make the command fail; it may never make it print wrong rows
